@@ -19,6 +19,7 @@ func init() {
 			{ID: "C15.1", Desc: "write protocol: temp, write, sync, close, rename", Run: ruleC15_1, MinSites: 1},
 			{ID: "C15.2", Desc: "read path: one open, one full read", Run: ruleC15_2, MinSites: 1},
 			{ID: "C15.3", Desc: "what is written to the file is private to the Set that wrote it (the encryptor hands out a buffer of its own per call)", Run: func(c *Ctx) { ruleC17_3(c); renameRule(c, "C17.3", "C15.3") }, MinSites: 1},
+			{ID: "C15.4", Desc: "an operation that reported its timeout publishes nothing afterwards (rename / remove under a gate the timeout closes)", Run: func(c *Ctx) { ruleAbandonedNotPublished(c, "C15.4") }, MinSites: 1},
 		},
 	})
 }
@@ -195,6 +196,34 @@ func ruleC15_1(c *Ctx) {
 					}
 				}
 			})
+			if ren == nil {
+				// the rename may sit in a function literal that is handed to a helper which runs it (a gate, a retry
+				// loop): the call that receives the literal then stands for the rename in this function's ordering
+				for _, g := range fn.AnonFuncs {
+					inLit := false
+					instrsOf(g, func(i2 ssa.Instruction) {
+						if c2 := callOf(i2); c2 != nil {
+							if _, newI, ok := isRename(c2); ok && c.isNamerResult(c2.Args[newI]) {
+								inLit = true
+							}
+						}
+					})
+					if !inLit {
+						continue
+					}
+					instrsOf(fn, func(i2 ssa.Instruction) {
+						c2 := callOf(i2)
+						if c2 == nil {
+							return
+						}
+						for _, a := range c2.Args {
+							if mc, ok := a.(*ssa.MakeClosure); ok && mc.Fn == ssa.Value(g) {
+								ren = i2
+							}
+						}
+					})
+				}
+			}
 			if ren == nil {
 				c.Fail("C15.1", key, desc, where+": a differently named file is written but never renamed onto the key's file name", where)
 				return
